@@ -39,6 +39,12 @@ CLAIMS["C20"] = dict(
     note="Proved for all inputs: Name/TrueName layers. Exhaustive over the finite universe (as the property quantifies), not proved for arbitrary tables: reflexivity/transitivity/ancestor laws of the class-table recursion. Function types: reflexivity only.",
     technique="Lean 4 proof over name-lattice model + exhaustive correspondence/law check on the finite universe",
     design="§5 C20")
+CLAIMS["C01"] = dict(
+    text="Unbounded Lean theorem range_enumerates_partial on the range desugaring (end adjustment and default step regenerated from range_slice.rs on every run): for every start, end, inclusiveness and positive step CPython's range over the emitted arguments enumerates exactly what the Mamba range means; the negation for negative steps is proved on a witness and recorded as a known finding. "
+         "All other constructs (operators, if/match/while/for, implicit return, constructors and field updates, raise/handle, both annotate settings) are decided by executing the emitted module under CPython against a reference interpreter of the generated program tree.",
+    note="Proved: range desugaring only. Decided by execution oracle, not by a theorem: conversion of every other construct (the Convert model of DESIGN §4 is not built). The reference interpreter (tools/gen_prog.py Interp) is part of the trusted base.",
+    technique="Lean 4 proof (range desugaring, regenerated constants) + CPython execution oracle vs reference interpreter",
+    design="§5 C01")
 NOT_YET = {}
 ALL = ["C%02d" % i for i in range(1, 21)]
 
